@@ -13,7 +13,16 @@ package ristretto
 import (
 	"fmt"
 	"strings"
+	"unsafe"
 )
+
+// vArr identifies the backing array of a stripe's data slice.
+func vArr(s *ringStripe) unsafe.Pointer {
+	if cap(s.data) == 0 {
+		return nil
+	}
+	return unsafe.Pointer(unsafe.SliceData(s.data[:cap(s.data)]))
+}
 
 func init() {
 	verifComponents["ring"] = func(args []string) func(op []string) string {
@@ -30,9 +39,11 @@ func init() {
 		var stripes []*ringStripe
 		rb := newRingBuffer(p, capa)
 		origNew := rb.pool.New
+		var createdArr unsafe.Pointer // backing array of the stripe pool.New made during the current bpush
 		rb.pool.New = func() interface{} {
 			s := origNew().(*ringStripe)
 			stripes = append(stripes, s)
+			createdArr = vArr(s)
 			return s
 		}
 		closed := false
@@ -43,17 +54,22 @@ func init() {
 			}
 			return fmt.Sprintf("k=%d d=%d ch=%d", m.get(keepGets), m.get(dropGets), len(p.itemsCh))
 		}
-		report := func(s *ringStripe, k0, d0 uint64, l0 int) string {
+		// arr=fresh: the stripe continues on another backing array than before the call; arr=same: on the same one
+		report := func(s *ringStripe, k0, d0 uint64, l0 int, a0 unsafe.Pointer) string {
 			k1, d1 := m.get(keepGets), m.get(dropGets)
+			arr := "arr=same"
+			if vArr(s) != a0 {
+				arr = "arr=fresh"
+			}
 			switch {
 			case k1 != k0:
-				return fmt.Sprintf("drain kept %d %s", k1-k0, tail())
+				return fmt.Sprintf("drain kept %d %s %s", k1-k0, tail(), arr)
 			case d1 != d0:
-				return fmt.Sprintf("drain dropped %d %s", d1-d0, tail())
+				return fmt.Sprintf("drain dropped %d %s %s", d1-d0, tail(), arr)
 			case len(s.data) == 0:
-				return fmt.Sprintf("drain closed %d %s", l0+1, tail())
+				return fmt.Sprintf("drain closed %d %s %s", l0+1, tail(), arr)
 			}
-			return fmt.Sprintf("stored %d %s", len(s.data), tail())
+			return fmt.Sprintf("stored %d %s %s", len(s.data), tail(), arr)
 		}
 		return func(op []string) string {
 			switch op[0] {
@@ -67,14 +83,17 @@ func init() {
 					i = len(stripes) - 1
 				}
 				s := stripes[i]
-				k0, d0, l0 := m.get(keepGets), m.get(dropGets), len(s.data)
+				k0, d0, l0, a0 := m.get(keepGets), m.get(dropGets), len(s.data), vArr(s)
 				s.Push(vu(op[2]))
-				return report(s, k0, d0, l0)
+				return report(s, k0, d0, l0, a0)
 			case "bpush":
 				before := make([]int, len(stripes))
+				arrs := make([]unsafe.Pointer, len(stripes))
 				for j, s := range stripes {
 					before[j] = len(s.data)
+					arrs[j] = vArr(s)
 				}
+				createdArr = nil
 				k0, d0 := m.get(keepGets), m.get(dropGets)
 				rb.Push(vu(op[1]))
 				idx := -1
@@ -83,14 +102,14 @@ func init() {
 						idx = j // created by this call
 						break
 					}
-					if len(s.data) != before[j] {
+					if len(s.data) != before[j] || vArr(s) != arrs[j] {
 						idx = j
 						break
 					}
 				}
 				if idx < 0 {
-					// no length changed: a stripe of capacity <= 1 was drained at once, or a full-length stripe was
-					// drained back to ... the same length is impossible otherwise; every stripe is empty then
+					// neither a length nor a backing array changed: a stripe of capacity 1 was drained at once and its batch
+					// refused; all stripes are empty then and behave alike
 					for j, s := range stripes {
 						if len(s.data) == 0 {
 							idx = j
@@ -101,11 +120,11 @@ func init() {
 				if idx < 0 {
 					return "cannot tell which stripe the pool used"
 				}
-				l0 := 0
+				l0, a0 := 0, createdArr
 				if idx < len(before) {
-					l0 = before[idx]
+					l0, a0 = before[idx], arrs[idx]
 				}
-				return fmt.Sprintf("s%d ", idx) + report(stripes[idx], k0, d0, l0)
+				return fmt.Sprintf("s%d ", idx) + report(stripes[idx], k0, d0, l0, a0)
 			case "recv":
 				if closed {
 					return "none"
